@@ -79,4 +79,10 @@ theorem C04_reload_slots (s : State) (h : Refd s) (live new : Config) (first : B
     Refd (applyConfig s live new first).1 :=
   applyConfig_ref s live new first h
 
+/-- the reader of the output (the Spec's `tagOf`) and the daemon (`parseTag`) read every routing
+    tag alike, well-formed or not -/
+theorem C04_tag_readers_agree (tag : Bytes) : Hist.tagOf tag = parseTag tag := by
+  unfold Hist.tagOf parseTag
+  simp only [Bool.or_comm]
+
 end Iauthd.Properties
